@@ -603,6 +603,26 @@ def oracle(case, time_limit=None):
                 apply_constraint(f, k)
     except Exception as e:  # noqa: BLE001
         return f'constraint-rejected:{type(e).__name__} raised while imposing valid constraints: {e}'
+    if case.get('timeout_first'):
+        # a search that hits its time limit says nothing about the formula: the next search on the same
+        # finder must still answer correctly (the solver is made slow so that the limit expires for sure)
+        import pysat.solvers as shim
+        from cirbo.synthesis.exception import SolverTimeOutError
+        shim.SLOW_SECONDS = 3
+        try:
+            first = f.find_circuit(time_limit=0.4)    # may legitimately answer without the solver
+            msg = shape.check(first)
+            if msg:
+                return msg
+        except SolverTimeOutError:
+            pass
+        except NoSolutionError:                       # e.g. an empty clause: known without the solver
+            if shape.exists():
+                return 'no-solution-but-exists:NoSolutionError although a circuit of the class exists'
+        except Exception as e:  # noqa: BLE001
+            return f'timeout-{type(e).__name__}:a search that hit its time limit raised {type(e).__name__}, not SolverTimeOutError'
+        finally:
+            shim.SLOW_SECONDS = 0
     try:
         c = f.find_circuit(time_limit=time_limit) if time_limit else f.find_circuit()
     except NoSolutionError:
